@@ -107,7 +107,10 @@ func c17Variants(dev glow.PublicKey) map[string]func(cur string) c17Variant {
 		"Ldupbanfirst": list(func(c string) []server.AuthorizedServer {
 			return []server.AuthorizedServer{srv("S2", true, 7000, c), srv("S2", false, 7000, c)}
 		}),
-		"M":      mig(dev, "cur", "G3"),
+		// the future new server N1 as an ordinary entry signed by the CURRENT GCA: accepted now, and the very same bytes
+		// must not pass later as "signed by the new GCA" inside a migration order (variant Minner)
+		"LN1": list(func(c string) []server.AuthorizedServer { return []server.AuthorizedServer{srv("N1", false, 7000, c)} }),
+		"M":   mig(dev, "cur", "G3"),
 		// a migration order whose (fully signed) list names one server three times: authorization, ban, and a second server
 		"Mdup": func(cur string) c17Variant {
 			em := server.EquipmentMigration{Equipment: dev, NewGCA: key("G3").Pub, NewShortID: 77}
@@ -158,8 +161,8 @@ func c17CliExec(raw json.RawMessage, hist []string, deep bool) *bfsResult {
 	m := &cliModel{GCA: "G1", ID: 4294967295, Servers: map[glow.PublicKey]client.GCAServer{s0.Key.Pub: s0.entry()}}
 	variants := c17Variants(dev.Pub)
 	var lastDialed glow.PublicKey // the server contacted last
-	var current string  // reply variant for this round
-	var roundGCA string // the client's GCA when the round starts
+	var current string            // reply variant for this round
+	var roundGCA string           // the client's GCA when the round starts
 	// every scripted server answers with the current variant, signed with its own key
 	for _, s := range servers {
 		s := s
@@ -331,7 +334,7 @@ func init() {
 		}
 		st1 := bfsPool(run, p, "ops", arg, depth, 0, func([]string) []string { return sops })
 		// client side
-		cops := []string{"L1", "L12", "L1b", "L1p", "L0b", "Lbad", "Lmix", "Ldupforged", "Ldupgenuine", "Ldup0forged", "Ldupbanfirst", "M", "Mdup", "Mouter", "Minner", "Mother", "restart"}
+		cops := []string{"L1", "L12", "L1b", "L1p", "L0b", "Lbad", "Lmix", "Ldupforged", "Ldupgenuine", "Ldup0forged", "Ldupbanfirst", "LN1", "M", "Mdup", "Mouter", "Minner", "Mother", "restart"}
 		cdepth := 4
 		if tier == "thorough" {
 			cdepth = 6
